@@ -109,4 +109,257 @@ theorem opStep_idle (P : Progs) (nw : Nat) (t : Thread) (g : Shared) (hs : t.sta
   unfold opStep
   simp only [hs, topOp, localStep]
 
+/-! ### (2) symbolic evaluation of the local micro-ops -/
+
+/-- how the locals after a run of local micro-ops derive from the locals `(index, length, round)` before it and the
+shared data size: `index` is never touched; `length` is the old one or (if `ll`) the data size; `round` = (`rb` or the old
+round) + `ri` -/
+structure Sym where
+  stack : List Frame
+  ll : Bool
+  rb : Option Nat
+  ri : Nat
+  deriving DecidableEq
+
+def Sym.start (stk : List Frame) : Sym := ⟨stk, false, none, 0⟩
+
+def Sym.conc (y : Sym) (i l r len : Nat) : Thread :=
+  ⟨y.stack, i, if y.ll then len else l, (match y.rb with | some v => v | none => r) + y.ri⟩
+
+theorem Sym.conc_start (stk : List Frame) (i l r len : Nat) : (Sym.start stk).conc i l r len = ⟨stk, i, l, r⟩ := by
+  simp [Sym.start, Sym.conc]
+
+/-- `localStep` on symbolic locals; `bl` / `bs` = outcome of `index < length` for the old length / for the data size -/
+def symStep (P : Progs) (bl bs : Bool) (y : Sym) : Sym :=
+  match y.stack with
+  | [] => y
+  | _ :: _ =>
+    match topOp P y.stack with
+    | none => { y with stack := nextStack P y.stack true }
+    | some op =>
+      match op with
+      | .whileIndexLtLength => { y with stack := nextStack P y.stack (if y.ll then bs else bl) }
+      | .loadLength => { y with stack := nextStack P y.stack true, ll := true }
+      | .initRound v => { y with stack := nextStack P y.stack true, rb := some v, ri := 0 }
+      | .incLocalRound => { y with stack := nextStack P y.stack true, ri := y.ri + 1 }
+      | _ => { y with stack := nextStack P y.stack true }
+
+def symSettle (P : Progs) (bl bs : Bool) : Nat → Sym → Sym
+  | 0, y => y
+  | f + 1, y => if settledStk P y.stack then y else symSettle P bl bs f (symStep P bl bs y)
+
+theorem symStep_sound (P : Progs) (y : Sym) (i l r len : Nat) :
+    localStep P len (y.conc i l r len) = (symStep P (decide (i < l)) (decide (i < len)) y).conc i l r len := by
+  unfold localStep symStep
+  have hst : (y.conc i l r len).stack = y.stack := rfl
+  rw [hst]
+  cases hs : y.stack with
+  | nil => simp [Sym.conc, hs]
+  | cons fr rest =>
+    simp only
+    cases ho : topOp P (fr :: rest) with
+    | none => simp [Sym.conc, hs]
+    | some op =>
+      cases op <;> simp only [Sym.conc, hs]
+      case whileIndexLtLength => cases y.ll <;> simp
+      case initRound v => simp
+      case incLocalRound => simp [Nat.add_assoc]
+      case loadLength => simp
+
+theorem symSettle_sound (P : Progs) (i l r len : Nat) : ∀ (f : Nat) (y : Sym),
+    settle P len f (y.conc i l r len) = (symSettle P (decide (i < l)) (decide (i < len)) f y).conc i l r len := by
+  intro f
+  induction f with
+  | zero => intro y; rfl
+  | succ f ih =>
+    intro y
+    have hst : (y.conc i l r len).stack = y.stack := rfl
+    simp only [settle, symSettle, hst]
+    split
+    · rfl
+    · rw [symStep_sound, ih]
+
+/-- the settled form of a concrete thread, through the symbolic evaluator -/
+theorem settle_sym (P : Progs) (stk : List Frame) (i l r len : Nat) :
+    settle P len settleFuel ⟨stk, i, l, r⟩ =
+      (symSettle P (decide (i < l)) (decide (i < len)) settleFuel (Sym.start stk)).conc i l r len := by
+  rw [← symSettle_sound, Sym.conc_start]
+
+/-! ### (3) the hand-written system, thread by thread -/
+
+def shOf (s : State) : Shared := ⟨s.ci, s.tc, s.wr, s.len, s.cnt, s.applies⟩
+def mkState (m : MPc) (ws : List WPc) (g : Shared) : State := ⟨m, ws, g.ci, g.tc, g.wr, g.len, g.cnt, g.applies⟩
+
+/-- `stepWorker` seen from one worker: its program point and the shared variables -/
+def wstepLocal (w : WPc) (g : Shared) : WPc × Shared :=
+  match w with
+  | .wait r => if g.wr = r then (.fetch r g.len, g) else (.wait r, g)
+  | .fetch r L => if g.ci < L then (.call r L g.ci, { g with ci := g.ci + 1 }) else (.signal r, { g with ci := g.ci + 1 })
+  | .call r L i => (.fetch r L, { g with cnt := bump g.cnt i })
+  | .signal r => (.wait (r + 1), { g with tc := g.tc + 1 })
+
+/-- `stepMaster` seen from the controller -/
+def mstepLocal (m : MPc) (g : Shared) (nw : Nat) : MPc × Shared :=
+  match m with
+  | .idle => (.idle, g)
+  | .setIdx => (.sigStore, { g with ci := 0 })
+  | .sigStore => (.sigInc, { g with tc := 1 })
+  | .sigInc => (.fetch, { g with wr := g.wr + 1 })
+  | .fetch => if g.ci < g.len then (.call g.ci, { g with ci := g.ci + 1 }) else (.waitDone, { g with ci := g.ci + 1 })
+  | .call i => (.fetch, { g with cnt := bump g.cnt i })
+  | .waitDone => if nw ≤ g.tc then (.idle, { g with applies := g.applies + 1 }) else (.waitDone, g)
+
+theorem set_self (l : List WPc) (k : Nat) (x : WPc) (h : l[k]? = some x) : l.set k x = l := by
+  induction l generalizing k with
+  | nil => rfl
+  | cons a t ih =>
+    cases k with
+    | zero => simp at h; subst h; rfl
+    | succ k => simp at h; simp [ih k h]
+
+theorem stepWorker_local (s : State) (k : Nat) (w : WPc) (h : s.ws[k]? = some w) :
+    stepWorker s k = mkState s.m (s.ws.set k (wstepLocal w (shOf s)).1) (wstepLocal w (shOf s)).2 := by
+  unfold stepWorker
+  rw [h]
+  cases w with
+  | wait r =>
+    by_cases hc : s.wr = r
+    · simp [wstepLocal, shOf, mkState, hc]
+    · simp only [wstepLocal, shOf, mkState, hc, if_false]; rw [set_self _ _ _ h]
+  | fetch r L =>
+    by_cases hc : s.ci < L
+    · simp [wstepLocal, shOf, mkState, hc]
+    · simp [wstepLocal, shOf, mkState, hc]
+  | call r L i => rfl
+  | signal r => rfl
+
+theorem stepMaster_local (s : State) :
+    stepMaster s = mkState (mstepLocal s.m (shOf s) (numWorkers s)).1 s.ws (mstepLocal s.m (shOf s) (numWorkers s)).2 := by
+  unfold stepMaster
+  cases hm : s.m with
+  | idle => simp only [mstepLocal, shOf, mkState]; rw [← hm]
+  | setIdx => rfl
+  | sigStore => rfl
+  | sigInc => rfl
+  | fetch =>
+    by_cases hc : s.ci < s.len
+    · simp [mstepLocal, shOf, mkState, hc]
+    · simp [mstepLocal, shOf, mkState, hc]
+  | call i => rfl
+  | waitDone =>
+    by_cases hc : numWorkers s ≤ s.tc
+    · simp [mstepLocal, shOf, mkState, hc]
+    · simp only [mstepLocal, shOf, mkState, hc, if_false]; rw [← hm]
+
+theorem wstepLocal_len (w : WPc) (g : Shared) : (wstepLocal w g).2.len = g.len := by
+  cases w <;> simp only [wstepLocal] <;> (try split) <;> rfl
+
+theorem mstepLocal_len (m : MPc) (g : Shared) (nw : Nat) : (mstepLocal m g nw).2.len = g.len := by
+  cases m <;> simp only [mstepLocal] <;> (try split) <;> rfl
+
+/-! the decidable tables -/
+
+/-- the symbolic thread at its next visible micro-op after executing the visible micro-op at the top of `stk` -/
+def after (P : Progs) (stk : List Frame) (bl bs : Bool) : Sym :=
+  symSettle P bl bs settleFuel (Sym.start (nextStack P stk true))
+
+/-- after the visible micro-op at the top of `stk`, for the test outcomes `bl`/`bs`, the next visible micro-op is `op`, the
+round is the old one + `k`, and (if `ll = some b`) the length is the data size (`b = true`) / the old length (`b = false`) -/
+def chk (P : Progs) (stk : List Frame) (bl bs : Bool) (op : MicroOp) (ll : Option Bool) (k : Nat) : Bool :=
+  decide (topOp P (after P stk bl bs).stack = some op) && decide ((after P stk bl bs).rb = none) &&
+    decide ((after P stk bl bs).ri = k) &&
+    (match ll with
+     | none => true
+     | some b => (after P stk bl bs).ll == b)
+
+theorem chk_spec (P : Progs) (stk : List Frame) (bl bs : Bool) (op : MicroOp) (ll : Option Bool) (k : Nat)
+    (h : chk P stk bl bs op ll k = true) :
+    topOp P (after P stk bl bs).stack = some op ∧ (after P stk bl bs).rb = none ∧ (after P stk bl bs).ri = k ∧
+      ∀ b, ll = some b → (after P stk bl bs).ll = b := by
+  simp only [chk, Bool.and_eq_true, decide_eq_true_eq] at h
+  refine ⟨h.1.1.1, h.1.1.2, h.1.2, ?_⟩
+  intro b hb
+  subst hb
+  simpa using h.2
+
+def all4 (p : Bool → Bool → Bool) : Bool := p true true && p true false && p false true && p false false
+
+theorem all4_spec (p : Bool → Bool → Bool) (h : all4 p = true) (a b : Bool) : p a b = true := by
+  simp only [all4, Bool.and_eq_true] at h
+  cases a <;> cases b <;> simp [h]
+
+/-- worker: the successor of each visible micro-op is the one `stepWorker` says -/
+def siteW (P : Progs) (stk : List Frame) : Bool :=
+  match topOp P stk with
+  | some .waitRoundEq => all4 fun bl bs => chk P stk bl bs .fetchIndex (some true) 0
+  | some .fetchIndex => all4 fun bl bs => chk P stk bl bs (if bl then .callFun else .incTC) (if bl then some false else none) 0
+  | some .callFun => all4 fun bl bs => chk P stk bl bs .fetchIndex (some false) 0
+  | some .incTC => all4 fun bl bs => chk P stk bl bs .waitRoundEq none 1
+  | _ => false
+
+/-- controller: the successor of each visible micro-op is the one `stepMaster` says -/
+def siteM (P : Progs) (stk : List Frame) : Bool :=
+  match topOp P stk with
+  | some (.storeIndex 0) => all4 fun bl bs => chk P stk bl bs (.storeTC 1) none 0
+  | some (.storeTC 1) => all4 fun bl bs => chk P stk bl bs .incRound none 0
+  | some .incRound => all4 fun bl bs => chk P stk bl bs .fetchIndex (some true) 0
+  | some .fetchIndex => all4 fun bl bs => chk P stk bl bs (if bl then .callFun else .waitTCgeN) none 0
+  | some .callFun => all4 fun bl bs => chk P stk bl bs .fetchIndex none 0
+  | some .waitTCgeN => all4 fun bl bs => decide ((after P stk bl bs).stack = [])
+  | _ => false
+
+theorem settled_of_top (P : Progs) (stk : List Frame) (op : MicroOp) (h : topOp P stk = some op) (hv : visible op = true) :
+    settledStk P stk = true := by
+  cases stk with
+  | nil => rfl
+  | cons fr rest => simp only [settledStk, h, hv]
+
+theorem settle_next (P : Progs) (stk : List Frame) (i l r len : Nat) :
+    settle P len settleFuel ⟨nextStack P stk true, i, l, r⟩ = (after P stk (decide (i < l)) (decide (i < len))).conc i l r len := by
+  unfold after; rw [settle_sym]
+
+theorem absW_settled (P : Progs) (len : Nat) (t : Thread) (h : settledStk P t.stack = true) : absW P len t = pointW P t := by
+  unfold absW; rw [settle_settled P len _ t h]
+
+theorem absM_settled (P : Progs) (len : Nat) (t : Thread) (h : settledStk P t.stack = true) : absM P len t = pointM P t := by
+  unfold absM; rw [settle_settled P len _ t h]
+
+theorem siteW_sound (P : Progs) (stk : List Frame) (h : siteW P stk = true) (i l r : Nat) (g : Shared) (nw : Nat) :
+    (absW P g.len (opStep P nw ⟨stk, i, l, r⟩ g).1, (opStep P nw ⟨stk, i, l, r⟩ g).2) =
+      wstepLocal (pointW P ⟨stk, i, l, r⟩) g := by
+  unfold siteW at h
+  split at h
+  · -- waitRoundEq
+    rename_i ho
+    have hset := settled_of_top P stk _ ho rfl
+    simp only [opStep, pointW, ho, wstepLocal]
+    by_cases hc : g.wr = r
+    · obtain ⟨h1, h2, h3, h4⟩ := chk_spec _ _ _ _ _ _ _ (all4_spec _ h (decide (i < l)) (decide (i < g.len)))
+      simp only [hc, if_true, absW, settle_next, pointW, Sym.conc, h1, h2, h3, h4 true rfl, Nat.add_zero]
+    · simp only [hc, if_false]
+      rw [absW_settled P _ _ hset]; simp only [pointW, ho]
+  · -- fetchIndex
+    rename_i ho
+    simp only [opStep, pointW, ho, wstepLocal]
+    obtain ⟨h1, h2, h3, h4⟩ := chk_spec _ _ _ _ _ _ _ (all4_spec _ h (decide (g.ci < l)) (decide (g.ci < g.len)))
+    by_cases hc : g.ci < l
+    · simp only [hc, decide_true, if_true] at h1 h2 h3 h4 ⊢
+      simp only [absW, settle_next, hc, decide_true, pointW, Sym.conc, h1, h2, h3, h4 false rfl, Nat.add_zero]
+      simp
+    · simp only [hc, decide_false, if_false] at h1 h2 h3 h4 ⊢
+      simp only [absW, settle_next, hc, decide_false, pointW, Sym.conc, h1, h2, h3, Nat.add_zero]
+      simp
+  · -- callFun
+    rename_i ho
+    simp only [opStep, pointW, ho, wstepLocal]
+    obtain ⟨h1, h2, h3, h4⟩ := chk_spec _ _ _ _ _ _ _ (all4_spec _ h (decide (i < l)) (decide (i < g.len)))
+    simp only [absW, settle_next, pointW, Sym.conc, h1, h2, h3, h4 false rfl, Nat.add_zero]
+    simp
+  · -- incTC
+    rename_i ho
+    simp only [opStep, pointW, ho, wstepLocal]
+    obtain ⟨h1, h2, h3, h4⟩ := chk_spec _ _ _ _ _ _ _ (all4_spec _ h (decide (i < l)) (decide (i < g.len)))
+    simp only [absW, settle_next, pointW, Sym.conc, h1, h2, h3]
+  · cases h
+
 end SgVerif.C49
